@@ -31,10 +31,10 @@ pub struct Scenario {
     pub run: fn(&mut Rig, bool, usize),
 }
 
-fn pat(n: usize, salt: u8) -> Vec<u8> {
+pub(super) fn pat(n: usize, salt: u8) -> Vec<u8> {
     (0..n).map(|i| ((i * 7 + 3) as u8).wrapping_add(salt)).collect()
 }
-fn ipa(b: &[u8]) -> IpAddress {
+pub(super) fn ipa(b: &[u8]) -> IpAddress {
     if b.len() == 4 {
         ip4(&[b[0], b[1], b[2], b[3]])
     } else {
@@ -43,28 +43,28 @@ fn ipa(b: &[u8]) -> IpAddress {
         ip6(&a)
     }
 }
-fn me(v6: bool) -> Vec<u8> {
+pub(super) fn me(v6: bool) -> Vec<u8> {
     if v6 {
         IFACE6.to_vec()
     } else {
         IFACE4.to_vec()
     }
 }
-fn peer(v6: bool) -> Vec<u8> {
+pub(super) fn peer(v6: bool) -> Vec<u8> {
     if v6 {
         PEER6.to_vec()
     } else {
         PEER4.to_vec()
     }
 }
-fn off(v6: bool) -> Vec<u8> {
+pub(super) fn off(v6: bool) -> Vec<u8> {
     if v6 {
         OFF6.to_vec()
     } else {
         OFF4.to_vec()
     }
 }
-fn hdr(v6: bool) -> usize {
+pub(super) fn hdr(v6: bool) -> usize {
     if v6 {
         40
     } else {
@@ -111,7 +111,7 @@ fn linked_only(m: Medium, v6: bool, v: usize) -> Option<Tweak> {
     std_setup(m, v6, v)
 }
 
-fn udp_socket(rig: &mut Rig, port: u16, addr: Option<IpAddress>) -> SocketHandle {
+pub(super) fn udp_socket(rig: &mut Rig, port: u16, addr: Option<IpAddress>) -> SocketHandle {
     let mut u = udp::Socket::new(
         udp::PacketBuffer::new(vec![udp::PacketMetadata::EMPTY; 8], vec![0u8; 4096]),
         udp::PacketBuffer::new(vec![udp::PacketMetadata::EMPTY; 8], vec![0u8; 4096]),
@@ -121,7 +121,7 @@ fn udp_socket(rig: &mut Rig, port: u16, addr: Option<IpAddress>) -> SocketHandle
 }
 
 /// inbound IPv4 datagram cut into fragments of `piece` payload octets (multiple of 8)
-fn v4_frags(src: &[u8], dst: &[u8], proto: u8, payload: &[u8], piece: usize, id: u16) -> Vec<Vec<u8>> {
+pub(super) fn v4_frags(src: &[u8], dst: &[u8], proto: u8, payload: &[u8], piece: usize, id: u16) -> Vec<Vec<u8>> {
     let piece = (piece / 8 * 8).max(8);
     let mut v = vec![];
     let mut o = 0;
@@ -140,7 +140,7 @@ fn v4_frags(src: &[u8], dst: &[u8], proto: u8, payload: &[u8], piece: usize, id:
 /// frames that carry IP packet `ipp` towards the interface; on 802.15.4 the datagram is
 /// 6LoWPAN-fragmented so that no frame exceeds 127 octets, on the other media IPv4 packets
 /// larger than the IP MTU are IPv4-fragmented
-fn inbound(rig: &Rig, mac: &[u8; 6], ext: [u8; 8], ipp: &[u8], tag: u16) -> Vec<Vec<u8>> {
+pub(super) fn inbound(rig: &Rig, mac: &[u8; 6], ext: [u8; 8], ipp: &[u8], tag: u16) -> Vec<Vec<u8>> {
     match rig.medium() {
         Medium::Ieee802154 => {
             let src: [u8; 16] = ipp[8..24].try_into().unwrap();
@@ -180,12 +180,12 @@ fn inbound(rig: &Rig, mac: &[u8; 6], ext: [u8; 8], ipp: &[u8], tag: u16) -> Vec<
         }
     }
 }
-fn inject_ip(rig: &mut Rig, mac: &[u8; 6], ext: [u8; 8], ipp: &[u8], tag: u16) {
+pub(super) fn inject_ip(rig: &mut Rig, mac: &[u8; 6], ext: [u8; 8], ipp: &[u8], tag: u16) {
     for f in inbound(rig, mac, ext, ipp, tag) {
         rig.inject(f);
     }
 }
-fn inject_from_peer(rig: &mut Rig, ipp: &[u8], tag: u16) {
+pub(super) fn inject_from_peer(rig: &mut Rig, ipp: &[u8], tag: u16) {
     inject_ip(rig, &PEER_MAC, PEER_EXT, ipp, tag)
 }
 
@@ -282,7 +282,7 @@ fn sc_icmp_echo_out(rig: &mut Rig, v6: bool, variant: usize) {
     }
 }
 
-fn echo_request(v6: bool, src: &[u8], dst: &[u8], seq: u16, n: usize) -> Vec<u8> {
+pub(super) fn echo_request(v6: bool, src: &[u8], dst: &[u8], seq: u16, n: usize) -> Vec<u8> {
     let body = echo_body(0x7777, seq, &pat(n, 4));
     if v6 {
         ipv6(src, dst, 58, 64, &icmp6(src, dst, 128, 0, &body))
